@@ -1,0 +1,92 @@
+//go:build verif
+
+// Contracts for stats.go (C13): every reported number is pinned to the counter it is read from.
+// Comment-only file. Uses the ghosts of zz_contracts_flow_verif.go.
+
+package nsqd
+
+// Queue depth comes from the backend (an interface: diskqueue or the dummy queue). lastBackendDepth is
+// the value returned by the most recent BackendQueue.Depth call, lastChannelDepth / lastTopicDepth the
+// value returned by the most recent Channel.Depth / Topic.Depth call (definitional, via onreturn).
+//@ ghost lastBackendDepth int64
+//@ ghost lastBackendDepthQueue BackendQueue
+//@ ghost lastChannelDepth int64
+//@ ghost lastTopicDepth int64
+
+//@ func (c *Channel) Depth() int64
+//@   props C13
+//@   requires c != nil && c.backend != nil
+//@   ensures[sum] len(c.memoryMsgChan) + len(c.zoneLocalMsgChan) + len(c.regionLocalMsgChan) + lastBackendDepth < 9223372036854775808 ==> result == len(c.memoryMsgChan) + len(c.zoneLocalMsgChan) + len(c.regionLocalMsgChan) + lastBackendDepth
+//@   ensures[own-backend] lastBackendDepthQueue == c.backend
+//@   modifies lastBackendDepth, lastBackendDepthQueue, lastChannelDepth
+//@   onreturn lastChannelDepth := result
+
+//@ func (t *Topic) Depth() int64
+//@   props C13
+//@   requires t != nil && t.backend != nil
+//@   ensures[sum] len(t.memoryMsgChan) + lastBackendDepth < 9223372036854775808 ==> result == len(t.memoryMsgChan) + lastBackendDepth
+//@   ensures[own-backend] lastBackendDepthQueue == t.backend
+//@   modifies lastBackendDepth, lastBackendDepthQueue, lastTopicDepth
+//@   onreturn lastTopicDepth := result
+
+// Channel.IsPaused is under contract in zz_contracts_client_verif.go (result == (c.paused == 1)).
+//@ func (t *Topic) IsPaused() bool
+//@   props C13 C05
+//@   requires t != nil
+//@   ensures[flag] result == (t.paused == 1)
+//@   modifies
+
+// The latency aggregate walks the channels' quantile streams only (internal/quantile is outside this
+// area): assumed not to touch any counter or queue of the topic or its channels.
+//@ func (t *Topic) AggregateChannelE2eProcessingLatency() *quantile.Quantile
+//@   props C13
+//@   trusted
+//@   requires t != nil
+//@   modifies t.channelMap, mapstore(map[string]*Channel)
+
+// Each field of the result is the counter it is named after. In-flight and deferred counts are the
+// sizes of the maps, read inside the critical sections of their mutexes.
+//@ func NewChannelStats(c *Channel, clients []ClientStats, clientCount int) ChannelStats
+//@   props C13
+//@   requires c != nil && c.backend != nil
+//@   ensures[name] result.ChannelName == c.name
+//@   ensures[depth] result.Depth == lastChannelDepth && result.BackendDepth == lastBackendDepth && lastBackendDepthQueue == c.backend
+//@   ensures[deferred-count] result.DeferredCount == atlock(len(c.deferredMessages))
+//@   ensures[message-count] result.MessageCount == old(c.messageCount)
+//@   ensures[topology-counts] result.ZoneLocalMsgCount == old(c.zoneLocalMsgCount) && result.RegionLocalMsgCount == old(c.regionLocalMsgCount) && result.GlobalMsgCount == old(c.globalMsgCount)
+//@   ensures[requeue-count] result.RequeueCount == old(c.requeueCount)
+//@   ensures[timeout-count] result.TimeoutCount == old(c.timeoutCount)
+//@   ensures[clients] result.ClientCount == clientCount && result.Clients == clients
+//@   ensures[paused] result.Paused == (old(c.paused) == 1)
+//@   ensures[non-negative] result.InFlightCount >= 0 && result.DeferredCount >= 0 && result.MessageCount >= 0 && result.RequeueCount >= 0 && result.TimeoutCount >= 0
+//@   ensures[counters-untouched] c.messageCount == old(c.messageCount) && c.requeueCount == old(c.requeueCount) && c.timeoutCount == old(c.timeoutCount)
+//@   modifies c.inFlightMessages, c.inFlightPQ, mapstore(map[MessageID]*Message), c.deferredMessages, c.deferredPQ, mapstore(map[MessageID]*pqueue.Item), lastBackendDepth, lastBackendDepthQueue, lastChannelDepth
+
+//@ func NewTopicStats(t *Topic, channels []ChannelStats) TopicStats
+//@   props C13
+//@   requires t != nil && t.backend != nil
+//@   ensures[name] result.TopicName == t.name
+//@   ensures[channels] result.Channels == channels
+//@   ensures[depth] result.Depth == lastTopicDepth && result.BackendDepth == lastBackendDepth && lastBackendDepthQueue == t.backend
+//@   ensures[message-count] result.MessageCount == old(t.messageCount)
+//@   ensures[message-bytes] result.MessageBytes == old(t.messageBytes)
+//@   ensures[paused] result.Paused == (old(t.paused) == 1)
+//@   ensures[non-negative] result.MessageCount >= 0 && result.MessageBytes >= 0
+//@   ensures[counters-untouched] t.messageCount == old(t.messageCount) && t.messageBytes == old(t.messageBytes)
+//@   modifies t.channelMap, mapstore(map[string]*Channel), lastBackendDepth, lastBackendDepthQueue, lastTopicDepth
+
+// Per-consumer numbers: each reported counter is the client's own counter of that name.
+//@ func (c *clientV2) Stats(topicName string) ClientStats
+//@   props C13
+//@   requires c != nil && c.Conn != nil
+//@   ensures[type] dyntype(result) == typetag("ClientV2Stats")
+//@   ensures[ready-count] unbox(result, "ClientV2Stats").ReadyCount == old(c.ReadyCount)
+//@   ensures[in-flight-count] unbox(result, "ClientV2Stats").InFlightCount == old(c.InFlightCount)
+//@   ensures[message-count] unbox(result, "ClientV2Stats").MessageCount == old(c.MessageCount)
+//@   ensures[finish-count] unbox(result, "ClientV2Stats").FinishCount == old(c.FinishCount)
+//@   ensures[requeue-count] unbox(result, "ClientV2Stats").RequeueCount == old(c.RequeueCount)
+//@   ensures[topology-counts] unbox(result, "ClientV2Stats").ZoneLocalMsgCount == old(c.ZoneLocalMsgCount) && unbox(result, "ClientV2Stats").RegionLocalMsgCount == old(c.RegionLocalMsgCount) && unbox(result, "ClientV2Stats").GlobalMsgCount == old(c.GlobalMsgCount)
+//@   ensures[state] unbox(result, "ClientV2Stats").State == old(c.State) && unbox(result, "ClientV2Stats").SampleRate == old(c.SampleRate)
+//@   ensures[version] unbox(result, "ClientV2Stats").Version == "V2"
+// Pure look-ups (switch over a constant table) used for the TLS columns of the report.
+//@ benign (*github.com/nsqio/nsq/nsqd.prettyConnectionState).GetCipherSuite, (*github.com/nsqio/nsq/nsqd.prettyConnectionState).GetVersion
